@@ -80,7 +80,12 @@ func ParseSelect(statement *sqlparser.Select) (logical.Node, *OutputOptions, err
 		root = logical.NewFilter(filterFormula, root)
 	}
 
-	isGroupBy := false
+	if statement.Having != nil {
+		return nil, nil, errors.New("HAVING is not supported, please filter in an outer query instead")
+	}
+
+	// A GROUP BY clause groups even if no aggregate is selected.
+	isGroupBy := len(statement.GroupBy) > 0
 	for i := range statement.SelectExprs {
 		if aliasedExpr, ok := statement.SelectExprs[i].(*sqlparser.AliasedExpr); ok {
 			if isAggregateExpression(aliasedExpr.Expr) {
